@@ -42,7 +42,7 @@ SPLIT = "case split on the byte length of the reduced value (big.Int.Bytes has a
 for n in [0, 1, 16, 31, 32, 33, 48, 64, 65, 96]:
     for bl in range(0, min(n, 32) + 1):
         quick = n in (0, 31, 32, 33, 64, 65) and bl in (0, 1, 16, 31, 32)
-        H.append(dict(name="scalar.SetBytes-len%d-valuebytes%d" % (n, bl), pkg=PKG, files=SA, entry="HarnessScalarSetBytes", mode="int", params={"p0": n}, globals=GL, contracts=KC, replay_entry="HarnessScalarAPIReplay", big_bytes_len=bl, validate=(3 if quick else 0), unwind=80, timeout_ms=120000,
+        H.append(dict(name="scalar.SetBytes-len%d-valuebytes%d" % (n, bl), pkg=PKG, files=SA, entry="HarnessScalarSetBytes", mode="int", params={"p0": n}, globals=GL, contracts=KC, replay_entry="HarnessScalarAPIReplay", big_bytes_len=bl, validate=(3 if quick else 0), unwind=200, timeout_ms=120000,
                       stubs=["math/big.Int as mathematical integers", SPLIT], functions=["edwards25519.(*scalar).SetBytes", "edwards25519.(*scalar).setInt", "mod.NewIntBytes", "mod.(*Int).LittleEndian"],
                       bound="all byte strings of length %d whose value mod l has a %d-byte minimal encoding, arbitrary stale receiver" % (n, bl), tiers=(["quick", "thorough"] if quick else ["thorough"])))
 for bl in [0, 1, 2, 3, 4, 5, 6, 7, 8, 32]:
